@@ -217,7 +217,7 @@ var sentinels = []sentinel{
 	{"EUnknownRejector", dkg.ErrUnknownRejector}, {"EDuplicateRejection", dkg.ErrDuplicateRejection},
 	{"EFinalGroupEmpty", dkg.ErrFinalGroupCannotBeEmpty}, {"EKeyShareEmpty", dkg.ErrKeyShareCannotBeEmpty},
 	{"EReceivedAcceptance", dkg.ErrReceivedAcceptance}, {"EReceivedRejection", dkg.ErrReceivedRejection},
-	{"EInvalidKeyScheme", key.ErrInvalidKeyScheme},
+	{"EInvalidKeyScheme", key.ErrInvalidKeyScheme}, {"EMissingPreviousGroup", dkg.ErrMissingPreviousGroup},
 }
 
 var allStatuses = []dkg.Status{dkg.Fresh, dkg.Proposed, dkg.Proposing, dkg.Accepted, dkg.Rejected, dkg.Aborted,
